@@ -12,7 +12,7 @@ from vfw import exact as X
 
 _i = st.integers
 RATIOS = [0, 0.0, 1, 1.0, 0.5, 0.25, 0.3, 0.1, 0.75, 0.9, 0.05, 0.6, 0.45, 0.999, 0.01]
-UNITS = ["1", "1", "0.5", "0.125", "2", "16", "0.1", "0.3", "0.025", "2.5", "7"]
+UNITS = ["1", "1", "0.5", "0.125", "2", "16", "0.1", "0.3", "0.025", "2.5", "7", "0.0001", "1000"]
 
 
 @st.composite
